@@ -516,9 +516,9 @@ def _forests(n):
 def enum_small(tier, seed):
     """All forests on n nodes (time = id) x 1..2 intervals; one site per interval with one mutation
     on every node (ancestors first).  run_small loops over all sample subsets x 24 option sets."""
-    plan = [(1, 1), (2, 1), (2, 2), (3, 1), (3, 2), (4, 1), (4, 2)]
+    plan = [(1, 1), (2, 1), (2, 2), (3, 1), (3, 2), (4, 1)]
     if tier != "quick":
-        plan += [(5, 1)]
+        plan += [(4, 2), (5, 1)]
     for n, nint in plan:
         forests = _forests(n)
         bps = [0.0, 1.0, 2.0][: nint + 1]
@@ -613,7 +613,7 @@ PROBES = {
 NT = ("output has fewer nodes than the input and the input has >=2 trees, or an option differs from its "
       "default, or the chosen samples include a node that is a parent somewhere")
 SUBCHECKS = [
-    SubCheck("C04.simplify", run_simplify, strategy=simplify_case, quick=8000, thorough=240000, rule=NT,
+    SubCheck("C04.simplify", run_simplify, strategy=simplify_case, quick=20000, thorough=600000, rule=NT,
              classify=classify,
              floors={"multi_tree": 0.25, "nodes_removed": 0.3, "internal_in_S": 0.2, "nonsample_in_S": 0.08,
                      "mutation_moved": 0.03, "mutation_dropped": 0.15, "mutation_kept": 0.2,
@@ -631,7 +631,8 @@ SUBCHECKS = [
              " an edge with metadata must raise LibraryError",
              floors={"kind:edge_metadata": 0.02, "kind:migrations": 0.02, "kind:duplicate": 0.02}),
     SubCheck("C04.exhaustive_small", run_small, enumerate=enum_small, quick=1, thorough=1,
-             rule="every forest on <=4 nodes x <=2 intervals (thorough: also 5 nodes x 1 interval) x every"
+             rule="every forest on <=3 nodes x <=2 intervals and 4 nodes x 1 interval (thorough: also 4 nodes x"
+             " 2 intervals and 5 nodes x 1 interval) x every"
              " sample subset x 24 topology option sets, a mutation on every node at one site per interval"
              " (two intervals: also with a site in the first interval only, reduce_to_site_topology sets); n>=2",
              classify=classify),
